@@ -198,22 +198,40 @@ def evaluator_terms(ctx):
         r.check(ok, "make_scalar_hypersingular." + name, FA, "make_scalar_hypersingular", cl[name].lineno, "fmm term of " + name, msg)
     # selection of the closure by identifier
     r2 = ctx.rule("FMM-DISPATCH", "every registered boundary assembly type has an FMM evaluator branch; closures are selected by the matching identifier", 3)
-    reg = K.registries(ctx)["assembly_functions_regular"]
+    # Abstract execution of the selectors for every (identifier, assembly type) the boundary factories can produce:
+    # the closure reached must be the one whose term was verified above for that kind of operator.
+    from . import dispatch, factories
+
     ce = m.fn("create_evaluator")
-    src = unparse(ce)
-    missing = []
-    for at in reg:
-        handled = ("== '%s'" % at) in src or (at.endswith("hypersingular") and "split('_')[-1] == 'hypersingular'" in src)
-        if not handled:
-            missing.append(at)
-    r2.check(not missing, "create_evaluator", FA, "create_evaluator", ce.lineno, "create_evaluator misses %s" % missing, "assembly types without an FMM evaluator branch (would return None): %s" % missing)
-    ds = unparse(m.fn("make_default_scalar")).replace(" ", "")
-    okd = ("if'single'inoperator_descriptor.identifier:returnevaluate_single_layer" in ds.replace("\n", "") and "elif'adjoint_double'inoperator_descriptor.identifier:returnevaluate_adjoint_double_layer" in ds.replace("\n", "")
-           and "elif'double'inoperator_descriptor.identifier:returnevaluate_double_layer" in ds.replace("\n", ""))
-    r2.check(okd, "make_default_scalar selection", FA, "make_default_scalar", m.fn("make_default_scalar").lineno, "default scalar closure selection", "closure selection by identifier substring changed (adjoint_double must be tested before double)")
-    hs = unparse(m.fn("make_scalar_hypersingular")).replace(" ", "").replace("\n", "")
-    okh = all("ifoperator_descriptor.identifier=='%s_hypersingular_boundary':returnevaluate_%s_hypersingular" % (f, f) in hs for f in ("laplace", "helmholtz", "modified_helmholtz"))
-    r2.check(okh, "make_scalar_hypersingular selection", FA, "make_scalar_hypersingular", m.fn("make_scalar_hypersingular").lineno, "hypersingular closure selection", "closure selection by identifier changed")
+    dparam = arg_names(ce)[0]
+    descs = sorted({(s.lit("identifier"), s.lit("assembly_type")) for s in factories.sites(ctx, "boundary") if s.lit("identifier") and s.lit("assembly_type")})
+    descs = [d for d in descs if d[1] in K.registries(ctx)["assembly_functions_regular"]]
+    if len(descs) < 14:
+        raise AnalysisError("only %d boundary operator descriptors with a dense assembly type found" % len(descs))
+    missing, wrong = [], []
+    for ident, at in descs:
+        env = {dparam + ".identifier": ident, dparam + ".assembly_type": at}
+        kind, node = dispatch.select(ce, env)
+        if kind != "return" or not isinstance(node, ast.Call) or not isinstance(node.func, ast.Name) or not m.has_fn(node.func.id):
+            missing.append(ident)
+            continue
+        maker = m.fn(node.func.id)
+        env2 = {arg_names(maker)[0] + ".identifier": ident, arg_names(maker)[0] + ".assembly_type": at}
+        k2_, n2 = dispatch.select(maker, env2)
+        got = n2.id if k2_ == "return" and isinstance(n2, ast.Name) else None
+        fam = next(f for f in ("modified_helmholtz", "helmholtz", "laplace", "maxwell") if ident.startswith(f))
+        layer = ident[len(fam) + 1:].replace("_boundary", "")
+        if at == "default_scalar":
+            want_name = "evaluate_" + layer
+        elif at.endswith("hypersingular"):
+            want_name = "evaluate_%s_hypersingular" % fam
+        else:
+            want_name = "evaluate"
+        if got != want_name:
+            wrong.append("%s -> %s.%s (verified closure for this operator: %s)" % (ident, maker.name, got, want_name))
+    r2.check(not missing, "create_evaluator", FA, "create_evaluator", ce.lineno, "create_evaluator misses %s" % missing, "operators without an FMM evaluator (create_evaluator returns None): %s" % missing)
+    r2.check(not wrong, "closure selection", FA, "create_evaluator", ce.lineno, "fmm closure selection %s" % wrong[:2], "an operator is evaluated with the closure of a different operator: %s" % wrong)
+    r2.ok("%d (identifier, assembly type) pairs executed abstractly" % len(descs))
 
 
 # ---------------------------------------------------------------- index bounds of the point maps
